@@ -28,6 +28,7 @@ JT == JsonDeserialize(IOEnv.TRACE_FILE)
 Traces == JT.traces
 
 VARIABLES tid, l, st, fails, unch, nchk,
+          acc,     \* what the last call added to the report (see Digest)
           kc,      \* number of raw candles consumed so far
           ok15,    \* C15's look-back precondition has held at every append so far
           trimmed, \* some candle has been trimmed away so far
@@ -35,7 +36,7 @@ VARIABLES tid, l, st, fails, unch, nchk,
           reg,     \* indices (into the trace's indicator list) of the registered indicators
           mgs,     \* indices of the candle managers that exist
           ob       \* last observed scalars of the object under test (attribute names, active index)
-tvars == <<tid, l, st, fails, unch, nchk, kc, ok15, trimmed, notes, reg, mgs, ob>>
+tvars == <<tid, l, st, fails, unch, nchk, acc, kc, ok15, trimmed, notes, reg, mgs, ob>>
 
 \* --------------------------------------------------------------------------
 \* JSON -> spec values
@@ -519,6 +520,7 @@ StepFindings(T, e, post) ==
 Init ==
   /\ tid \in 1..Len(Traces)
   /\ l = 1
+  /\ acc = [fails |-> <<>>, unch |-> 0, nchk |-> 0, notes |-> <<>>]
   /\ st = [j \in 1..Len(Traces[tid].mg) |-> <<>>]
   /\ fails = <<>>
   /\ unch = 0
@@ -531,27 +533,38 @@ Init ==
   /\ mgs = {}
   /\ ob = [at |-> <<>>, ai |-> 0, orph |-> 0]
 
+\* what one call adds to the report.  (An operator of its own on purpose: TLC does not cache LET
+\* definitions while it enumerates an action's successors, it does inside the expression assigned to a
+\* primed variable -- with the findings computed in Step's own LET every reference to them, one per
+\* finding in the filters below, recomputed StepFindings.)
+Digest(T, e, post, pos, sofar) ==
+  LET fs   == StepFindings(T, e, post)
+      \* a scenario family may mute clauses that say nothing about it (T.mute)
+      bad  == {f \in fs : f[1] \notin (IF DebugUnch THEN {"ok"} ELSE {"ok", "unchecked"})
+                           /\ f[1] \notin {T.mute[q] : q \in 1..Len(T.mute)}}
+      \* at most a few findings per clause and call (the lowest candles): one clause failing on every
+      \* candle must not crowd the others out of the report
+      low  == {f \in bad : Cardinality({g \in bad : g[1] = f[1] /\ g[4] < f[4]}) < 2}
+      few  == UNION { LET S  == {f \in low : f[1] = c}
+                          f1 == CHOOSE f \in S : TRUE
+                      IN IF S = {f1} THEN {f1} ELSE {f1, CHOOSE f \in S \ {f1} : TRUE}
+                    : c \in {f[1] : f \in low} }
+      bseq == SetAsSeq(few)
+  IN [fails |-> IF Len(sofar) >= MaxFails THEN <<>>
+                ELSE [q \in 1..MinI(Len(bseq), MaxFails - Len(sofar)) |-> <<pos>> \o bseq[q]],
+      unch  |-> Cardinality({f \in fs : f[1] = "unchecked"}),
+      nchk  |-> Cardinality({f \in fs : f[1] = "ok"}),
+      notes |-> SetAsSeq({f[3] : f \in {g \in fs : g[1] = "ok" /\ g[4] = 0 /\ g[3] \in NoteNames}})]
+
 Step ==
   /\ l <= Len(Traces[tid].ev)
   /\ LET T    == Traces[tid]
          e    == T.ev[l]
          post == [j \in 1..Len(T.mg) |-> ApplyDelta(st[j], e.m[j])]
-         fs   == StepFindings(T, e, post)
-         \* a scenario family may mute clauses that say nothing about it (T.mute)
-         bad  == {f \in fs : f[1] \notin (IF DebugUnch THEN {"ok"} ELSE {"ok", "unchecked"})
-                              /\ f[1] \notin {T.mute[q] : q \in 1..Len(T.mute)}}
-         \* at most a few findings per clause and call (the lowest candles): one clause failing on every
-         \* candle must not crowd the others out of the report
-         low  == {f \in bad : Cardinality({g \in bad : g[1] = f[1] /\ g[4] < f[4]}) < 2}
-         few  == UNION { LET S  == {f \in low : f[1] = c}
-                             f1 == CHOOSE f \in S : TRUE
-                         IN IF S = {f1} THEN {f1} ELSE {f1, CHOOSE f \in S \ {f1} : TRUE}
-                       : c \in {f[1] : f \in low} }
-         bseq == SetAsSeq(few)
-     IN /\ fails' = IF Len(fails) >= MaxFails THEN fails
-                    ELSE fails \o [q \in 1..MinI(Len(bseq), MaxFails - Len(fails)) |-> <<l>> \o bseq[q]]
-        /\ unch' = unch + Cardinality({f \in fs : f[1] = "unchecked"})
-        /\ nchk' = nchk + Cardinality({f \in fs : f[1] = "ok"})
+     IN /\ acc' = Digest(T, e, post, l, fails)
+        /\ fails' = fails \o acc'.fails
+        /\ unch' = unch + acc'.unch
+        /\ nchk' = nchk + acc'.nchk
         /\ st' = post
         /\ kc' = IF e.op \in {"new", "append"} THEN e.b ELSE kc
         /\ ok15' = (ok15 /\ (e.op \in {"append", "calculate"} => LookbackOK(T, e, post)))
@@ -562,7 +575,7 @@ Step ==
                                 /\ Len(post[j]) < Len(ShownDef(RawSlice(T, 1, e.b),
                                                                [MCfg(T.mg[j]) EXCEPT !.life = -1])))
                             \/ (e.op = "new" /\ T.mg[j].life >= 0 /\ ~DefApplies(T, j)))
-        /\ notes' = notes \o SetAsSeq({f[3] : f \in {g \in fs : g[1] = "ok" /\ g[4] = 0 /\ g[3] \in NoteNames}})
+        /\ notes' = notes \o acc'.notes
         /\ reg' = RegAfter(T, e)
         /\ mgs' = MgsAfter(T, e)
         /\ ob' = e.ob
